@@ -128,7 +128,7 @@ def initial(W):
 def clone(s):
     t = St()
     t.ent = s.ent.clone()
-    t.cur = copy.copy(s.cur)
+    t.cur = T.snapshot(s.cur)
     if getattr(t.cur, "entropy_f", None) is s.ent:
         t.cur.entropy_f = t.ent
     t.model, t.scalars, t.bad = s.model, s.scalars, s.bad
@@ -179,6 +179,7 @@ def note_scalar(W, s, blob, acc, hist, ev):
 
 def apply(W, s, ev, acc, hist):
     """execute one event on the real instance, judge it against the automaton, return the outcome label"""
+    T.clock.advance(1800)          # half an hour passes between any two calls of a history
     cur = s.cur
     if ev in ("start", "start_raise"):
         s.ent.fail = (ev == "start_raise")
@@ -246,8 +247,8 @@ def bfs_world(W, acc, snapshot=True):
                     nxt.append((t, hist + (ev,)))
         frontier = nxt
         depth += 1
-        if depth > 40:
-            acc.cap("BFS depth 40 reached without fixpoint")
+        if depth > 120 or len(seen) > 20000:
+            acc.cap("BFS stopped at depth %d / %d states without fixpoint" % (depth, len(seen)))
             break
     acc.n(states=len(seen))
     acc.extra.setdefault("bfs", {})["%s/%s/x=%s" % (W.inst.name, W.side, W.x)] = {"product_states": len(seen), "fixpoint_depth": depth}
@@ -292,9 +293,44 @@ def _stateless_task(task):
     return acc
 
 
+PREFORK = {}
+
+
+def _prefork_task(task):
+    """histories whose first part ran in the parent process and whose continuation runs here, in a forked child"""
+    key, = task
+    acc = Acc()
+    name, side, x, prefix = key
+    W = World(name, side, x)
+    s = PREFORK[key]
+    done = list(prefix)
+    for rest in itertools.product(["start", "fin_valid", "fin_own_side", "serialize", "restore"], repeat=2):
+        t = clone(s)
+        h = list(done)
+        for ev in rest:
+            apply(W, t, ev, acc, h)
+            h.append(ev)
+            if t.bad:
+                break
+        acc.n(traces=1)
+    return acc
+
+
 def run(tier, seed):
     acc = Acc()
     quick = tier == "quick"
+    PREFORK.clear()
+    for name, side, x in (("T23", "A", 4), ("T23", "S", 4), ("ParamsEd25519", "B", 7)):
+        if T.try_get(name)[0] is None:
+            continue
+        W0 = World(name, side, x)
+        for prefix in (("start",), ("start", "fin_valid"), ("start", "serialize", "restore")):
+            s = initial(W0)
+            h = []
+            for ev in prefix:
+                apply(W0, s, ev, Acc(), h)
+                h.append(ev)
+            PREFORK[(name, side, x, prefix)] = s
     try:
         g = graph()
     except lifecycle.ModelError as e:
@@ -309,7 +345,7 @@ def run(tier, seed):
             sl.append(("sl", ("T23", side, 4, d_all, p)))
     for p in itertools.product(EVENTS, repeat=2):
         sl.append(("sl", ("T23", "A", 0, d_one, p)))
-    tasks = sorted(tasks, key=lambda t: -T.get(t[1][0]).ref.esize) + sl
+    tasks = sorted(tasks, key=lambda t: -T.get(t[1][0]).ref.esize) + sl + [("prefork", (k,)) for k in sorted(PREFORK)]
     res = core.pmap(_dispatch, tasks)
     stateless = {}
     for r in res:
@@ -338,6 +374,8 @@ def run(tier, seed):
 
 
 def _dispatch(t):
+    if t[0] == "prefork":
+        return _prefork_task(t[1])
     return _bfs_task(t[1]) if t[0] == "bfs" else _stateless_task(t[1])
 
 
